@@ -7,7 +7,8 @@
 From Coq Require Import List ZArith Bool.
 From SVC Require Import Base.AMap Base.Res Model.Types Model.Handlers Model.EndBlock Model.Step
   Proofs.Inv Proofs.CtxOps Proofs.TraceBase Proofs.C12Proofs Proofs.TraceBatch Proofs.ThrProofs
-  Proofs.GapC12 Proofs.GapC12b.
+  Proofs.GapC12 Proofs.GapC12b
+  Model.ParamStep Proofs.ParamChange Proofs.ReachPProps.
 Import ListNotations.
 Open Scope Z_scope.
 
@@ -379,3 +380,25 @@ Theorem C12_finished_context_complete : forall cfg s c,
       \/ (forall n, count (is_cbresp c n) (log s) = 0)).
 Proof. exact GapC12b.finished_context_complete. Qed.
 Print Assumptions C12_finished_context_complete.
+
+(* ---- governance parameter changes inside a history (Model/ParamStep.v, Proofs/ParamChange.v,
+   Proofs/ReachPProps.v) ----
+   The state-invariant statements above, with `wf_cfg cfg -> Reach cfg s` (parameters fixed along
+   the history) replaced by `ReachP cfg s`: initial state; operations under the parameters in
+   force; changes to a well-formed parameter set that does not raise the minimum-deposit terms
+   nor lower the maximum request timeout (tax, slash fraction, arbitration and complaint periods
+   change freely).  cfg is the parameter set in force in s.  Same conclusions. *)
+
+Theorem C12_counts_param_changes :
+  forall cfg s, ReachP cfg s -> forall c rc,
+  get c (ctxs s) = Some rc ->
+  0 <= c_bresp rc <= c_breq rc
+  /\ (has c (expq_h s) = true ->
+        len (batch_rids s c (c_counter rc)) = c_breq rc
+        /\ len (filter (in_batch c (c_counter rc)) (keys (resps s))) = c_bresp rc
+        /\ len (active_rids s c (c_counter rc)) = c_breq rc - c_bresp rc)
+  /\ (has c (expq_h s) = false ->
+        c_bdone rc = true
+        /\ forall r, rid_ctx r = c -> get r (reqs s) = None /\ get r (resps s) = None).
+Proof. exact ReachPProps.counts_P. Qed.
+Print Assumptions C12_counts_param_changes.
